@@ -386,16 +386,44 @@ def arrnf(t):
                 return ("fill", c, a[0])
             if fn == "numpy.full" and len(a) == 2 and a[0][0] not in ("seq", "arr"):
                 return ("fill", a[1], a[0])
-            if fn == "numpy.concatenate" and len(a) == 1 and a[0][0] == "seq" and len(a[0][1]) == 2:
-                return ("concat", a[0][1][0], a[0][1][1])
+            if fn == "numpy.concatenate" and len(a) == 1 and a[0][0] == "seq" and len(a[0][1]) >= 1:
+                return _concat(list(a[0][1]))
+            if fn == "numpy.append" and len(a) == 2:
+                return _concat([a[0], a[1] if a[1][0] in ("seq", "fill", "concat", "rep") else T.seq((a[1],))])
             if fn == ("m", "reshape") and len(a) == 3 and a[1] == T.num(-1) and a[2] == T.num(1):
                 return ("col", a[0])
             if fn == ("m", "reshape") and len(a) == 2 and a[1] == T.seq((T.num(-1), T.num(1))):
                 return ("col", a[0])
         if k == "arr":
             return T.seq(x[1])
+        if k == "concat" and len(x) == 3:
+            return _concat([x[1], x[2]])
         return None
     return T.transform(t, f)
+
+
+def _concat(parts):
+    """concatenation is associative with [] as unit: flatten, drop empty literals, merge adjacent literals, nest to the left"""
+    flat = []
+
+    def go(p):
+        if p[0] == "concat" and len(p) == 3:
+            go(p[1])
+            go(p[2])
+        elif p[0] == "seq" and not p[1]:
+            pass
+        elif p[0] == "seq" and flat and flat[-1][0] == "seq":
+            flat[-1] = T.seq(flat[-1][1] + p[1])
+        else:
+            flat.append(p)
+    for p in parts:
+        go(p)
+    if not flat:
+        return T.seq(())
+    out = flat[0]
+    for p in flat[1:]:
+        out = ("concat", out, p)
+    return out
 
 
 # ------------------------------------------------------------------ affine weights (points vs. vectors) over terms
@@ -551,4 +579,125 @@ def module_level_mutated(repo, module_name):
             name = st["attr"][1:] if st["attr"].startswith("$") else None
             if name in shared and name not in local_rebinds and name not in params and st["kind"] in ("elem", "mut", "del_elem"):
                 out.append((name, f, st))
+    return out
+
+
+# ---------------------------------------------------------------------- element additions, whichever way they are spelled
+class Addition:
+    """one way an element enters a collection: `c.append(e)` under guards, or the element of a comprehension that is assigned,
+    concatenated (`c += [e for ...]`, `c.extend(...)`) or united into it.  Looks like an Event: guard, conds(), loops(), args, node."""
+    kind = "add"
+
+    def __init__(self, name, coll, elem, guard, node, how):
+        self.name, self.coll, self.elem, self.guard, self.node, self.how = name, coll, elem, tuple(guard), node, how
+        self.args = (elem,)
+        self.fname = ("m", "append")
+
+    def conds(self):
+        out = []
+        for g in self.guard:
+            if g[0] in ("loop", "while", "except", "try"):
+                continue
+            out.extend(T.conjuncts(g))
+        return out
+
+    def loops(self):
+        return [g for g in self.guard if g[0] in ("loop", "while")]
+
+
+def _add_parts(name, coll, v, guard, node, out, top):
+    if v[0] in ("concat", "union") and len(v) == 3:
+        _add_parts(name, coll, v[1], guard, node, out, False)
+        _add_parts(name, coll, v[2], guard, node, out, False)
+    elif v[0] == "map":
+        g = tuple(guard) + (("loop", v[2][1], v[3]),) + ((v[4],) if v[4] != T.TRUE else ())
+        out.append(Addition(name, coll, v[1], g, node, "comprehension"))
+    elif v[0] == "flatmap":
+        g = tuple(guard) + (("loop", v[2][1], v[3]),) + ((v[4],) if v[4] != T.TRUE else ())
+        _add_parts(name, coll, v[1], g, node, out, False)
+    elif v[0] == "call" and v[1] in ("list", "set", "tuple") and len(v[2]) == 1 and not top:
+        _add_parts(name, coll, v[2][0], guard, node, out, False)
+    elif v[0] == "call" and v[1] in ("list", "set", "tuple") and len(v[2]) == 1 and v[2][0][0] in ("map", "flatmap"):
+        _add_parts(name, coll, v[2][0], guard, node, out, False)
+    elif v[0] == "seq" and not top:
+        for x in v[1]:
+            out.append(Addition(name, coll, x, guard, node, "literal"))
+
+
+def additions(summary):
+    out = []
+    for e in summary.events:
+        if e.kind == "call" and isinstance(e.fname, tuple) and e.fname[0] == "m" and len(e.args) == 1:
+            nm = e.node.func.value.id if isinstance(e.node.func, ast.Attribute) and isinstance(e.node.func.value, ast.Name) else None
+            if e.fname[1] in ("append", "add"):
+                out.append(Addition(nm, e.recv, e.args[0], e.guard, e.node, "append"))
+            elif e.fname[1] in ("extend", "update"):
+                _add_parts(nm, e.recv, e.args[0], e.guard, e.node, out, False)
+        elif e.kind == "assign":
+            _add_parts(e.name, e.old, e.value, e.guard, e.node, out, True)
+        elif e.kind == "store" and not e.sub:
+            _add_parts(e.attr, None, e.value, e.guard, e.node, out, True)
+    return out
+
+
+# ---------------------------------------------------------------------- roles of a loop's bound variable (canonical idioms of sym.canon_loop)
+class Roles:
+    """what the bound variable of a canonical loop stands for: pos/elem over a sequence `base` (enumerate), key/val over a
+    mapping `base` (items), val (values), or just the element/key of `base` (plain iteration)"""
+
+    def __init__(self, g):
+        self.L, it = g[1], g[2]
+        bv = ("bv", g[1])
+        self.bv = bv
+        P0, P1 = T.idx(bv, T.num(0)), T.idx(bv, T.num(1))
+        self.pos = self.elem = self.key = self.val = None
+        if it[0] == "call" and it[1] == "enumerate" and len(it[2]) == 1:
+            self.kind, self.base, self.pos, self.elem = "enumerate", it[2][0], P0, P1
+        elif it[0] == "call" and it[1] == ("m", "items") and len(it[2]) == 1:
+            self.kind, self.base, self.key, self.val = "items", it[2][0], P0, P1
+        elif it[0] == "call" and it[1] == ("m", "values") and len(it[2]) == 1:
+            self.kind, self.base, self.val, self.elem = "values", it[2][0], bv, bv
+        elif it[0] == "call" and it[1] == "range" and len(it[2]) == 1 and it[2][0][0] == "call" and it[2][0][1] == "len":
+            self.kind, self.base, self.pos = "positions", it[2][0][2][0], bv
+        else:
+            self.kind, self.base, self.elem, self.key = "plain", it, bv, bv
+            self.val = T.idx(it, bv)
+
+    def key_of(self):
+        return self.key if self.key is not None else self.bv
+
+
+def roles(g):
+    return Roles(g)
+
+
+# ---------------------------------------------------------------------- entries of a mapping, whichever way they are written
+def entries(summary, attr=None, name=None):
+    """(key, value) pairs entering a mapping: `d[k] = v` under guards, or the pairs of a dict comprehension / dict(enumerate(..)) /
+    dict(zip(..)) assigned to it.  Yields Addition objects with .key and .elem (= value); attr selects `<x>.attr`, name a local."""
+    out = []
+
+    def from_value(v, guard, node, nm):
+        if v[0] == "call" and v[1] == "dict" and len(v[2]) == 1:
+            m = v[2][0]
+            if m[0] == "map" and m[1][0] == "seq" and len(m[1][1]) == 2:
+                g = tuple(guard) + (("loop", m[2][1], m[3]),) + ((m[4],) if m[4] != T.TRUE else ())
+                a = Addition(nm, None, m[1][1][1], g, node, "comprehension")
+                a.key = m[1][1][0]
+                out.append(a)
+            elif m[0] == "call" and m[1] in ("enumerate", "zip", ("m", "items")):
+                bv = ("bv", "pairs")
+                g = tuple(guard) + (("loop", "pairs", m),)
+                a = Addition(nm, None, T.idx(bv, T.num(1)), g, node, "pairs")
+                a.key = T.idx(bv, T.num(0))
+                out.append(a)
+    for e in summary.events:
+        if e.kind == "store" and e.sub and (attr is None or e.attr == attr) and (name is None or e.attr == "$" + name or e.attr == name):
+            a = Addition(e.attr, e.base, e.value, e.guard, e.node, "store")
+            a.key = e.key
+            out.append(a)
+        elif e.kind == "store" and not e.sub and attr is not None and e.attr == attr:
+            from_value(e.value, e.guard, e.node, attr)
+        elif e.kind == "assign" and name is not None and e.name == name:
+            from_value(e.value, e.guard, e.node, name)
     return out
